@@ -2,6 +2,7 @@ package urltree
 
 import (
 	"fmt"
+	"maps"
 
 	"github.com/rs/zerolog/log"
 )
@@ -29,10 +30,16 @@ func lookupNode[T any](urlTree *URLTree[T], url string) lookupNodeResult[T] {
 	currentNode := urlTree.Root
 	var params map[string]string
 	var foundWildcardNode *Node[T]
+	// Normalized URL and path parameters of the wildcard found: a fallback to it
+	// must not report what was consumed below it on the way to a dead end
+	var wildcardURLPath string
+	var wildcardParams map[string]string
 	urlPath := ""
 	for _, urlPart := range splitURL {
 		if currentNode.WildcardChild != nil {
 			foundWildcardNode = currentNode.WildcardChild
+			wildcardURLPath = wildcardPath(urlPath, foundWildcardNode)
+			wildcardParams = maps.Clone(params)
 		}
 		child, found := currentNode.ConstantChildren[urlPart.Value]
 		if found && child.IsPartOfHost == urlPart.IsPartOfHost {
@@ -74,12 +81,11 @@ func lookupNode[T any](urlTree *URLTree[T], url string) lookupNodeResult[T] {
 
 		if foundWildcardNode != nil {
 			// Didn't find exact value, but found a matching wildcard
-			urlPath = urlPath + getDelimiter(urlPart) + wildcard
 			return buildLookupNodeResult(
 				true,
 				foundWildcardNode,
-				params,
-				urlPath,
+				wildcardParams,
+				wildcardURLPath,
 			)
 		}
 
@@ -93,15 +99,24 @@ func lookupNode[T any](urlTree *URLTree[T], url string) lookupNodeResult[T] {
 	// Exact value not found, check if node has wildcard child
 	if currentNode.WildcardChild != nil {
 		return buildLookupNodeResult(
-			true, currentNode.WildcardChild, params, urlPath)
+			true, currentNode.WildcardChild, params,
+			wildcardPath(urlPath, currentNode.WildcardChild))
 	}
 	// Check if a matching wildcard was found in a parent node
 	if foundWildcardNode != nil {
-		return buildLookupNodeResult(true, foundWildcardNode, params, urlPath)
+		return buildLookupNodeResult(
+			true, foundWildcardNode, wildcardParams, wildcardURLPath)
 	}
 
 	// No match found, return the node that was found with noMatch
 	return buildLookupNodeResult(false, currentNode, params, urlPath)
+}
+
+// wildcardPath is the URL path of the wildcard child of the node reached by urlPath
+func wildcardPath[T any](urlPath string, wildcardNode *Node[T]) string {
+	return urlPath + getDelimiter(
+		urlPart{IsPartOfHost: wildcardNode.IsPartOfHost, Value: wildcard},
+	) + wildcard
 }
 
 func getDelimiter(urlPart urlPart) string {
